@@ -46,7 +46,8 @@ async def make_dict(users=(), demo_data=False, subsystem=None, **over):
     config.apply_context()
     for name, password, roles in users:
         ident = Identity(name, backend.login, None, {'admin'})
-        pw = await Passwords(config).hash_password(password)
+        # password None: an account without a stored secret (token-only, locked) - nothing verifies against it
+        pw = await Passwords(config).hash_password(password) if password is not None else None
         await ident.set(UserMetadata(config, name, password=pw, roles=frozenset(roles)))
     return backend, config
 
@@ -74,7 +75,7 @@ async def make_maildir(base, layout='++', users=(('alice', 'pwalice', ()), ('bob
         try:
             await ident.get()
         except Exception:
-            pw = await Passwords(cfg).hash_password(password)
+            pw = await Passwords(cfg).hash_password(password) if password is not None else None
             await ident.set(UserMetadata(cfg, name, password=pw, roles=frozenset(roles)))
     return cfg, login
 
